@@ -46,6 +46,10 @@ func Main(p Plan) {
 					plan.Sticky = true
 				case "settle":
 					plan.Settle = true
+				case "closefault":
+					plan.CloseFaults = true
+				case "nohold":
+					plan.NoHold = true
 				}
 			}
 			return crashcheck.RunFaulty(key+"/"+param, crashcheck.Scenarios[parts[1]], crashcheck.Mode{FilesOnly: true}, plan, opts)
